@@ -361,7 +361,12 @@ def recoveryLoop (h : Header) (mss : Nat) : List SegView → VSock → Ctx → R
 def newDataLoop (h : Header) : List SegView → VSock → Ctx → Nat → R (VSock × Ctx × Option (Nat × Nat))
   | [], v, c, _ => pure (v, c, none)
   | item :: rest, v, c, remaining =>
-    if remaining < item.seg.payloadSize then pure (v, c, none) else
+    if remaining < item.seg.payloadSize then
+      -- a size probe that was never sent and does not fit while nothing is in flight would wait for ever (no ACK is
+      -- coming to open the window): the caller re-segments it; reported as size 0 (D23)
+      if v.segs.calcFlightSize v.lastSentSeqNr = 0 ∧ item.seg.isMtuProbe ∧ item.seg.sendCount = 0
+      then pure (v, c, some (item.seqNr, 0)) else pure (v, c, none)
+    else
     match v.sendData c h item with
     | .error e => throw e
     | .ok (v, c, .sent) => newDataLoop h rest v c (remaining - item.seg.payloadSize)
@@ -423,6 +428,13 @@ def sendTxQueue (v : VSock) (c : Ctx) : R (VSock × Ctx) := do
     | .error e => throw e
     | .ok (v, c, none) => return (v, c)
     | .ok (v, c, some (seqNr, size)) =>
+      if size = 0 then
+        -- the probe did not fit the window with nothing in flight: its bytes are segmented again at a proven size
+        match v.segs.popMtuProbe seqNr with
+        | none => throw ⟨(.panic "pop_mtu_probe underflow"), v, c⟩
+        | some (segs', true) => return ({ v with segs := segs', ss := v.ss.skipNextProbe, restart := true }, c)
+        | some (_, false) => return (v, c)
+      else
       match v.segs.popMtuProbe seqNr with
       | none => throw ⟨(.panic "pop_mtu_probe underflow"), v, c⟩
       | some (segs', true) =>
